@@ -233,6 +233,9 @@ class Interp(object):
             bad = False
             for off in offs:
                 ca, cb = a.cells.get(off), b.cells.get(off)
+                if off == 'opq':
+                    m.cells[off] = (0, ite(cond, ca[1] if ca else UNINIT, cb[1] if cb else UNINIT))
+                    continue
                 if ca is not None and cb is not None and ca[0] == cb[0]:
                     m.cells[off] = (ca[0], ite(cond, ca[1], cb[1]))
                 elif ca is None and cb is not None and not self._overlaps(a, off, cb[0]):
@@ -249,7 +252,8 @@ class Interp(object):
                 hi = 0
                 for ag in (a, b):
                     for off, (sz, _) in ag.cells.items():
-                        hi = max(hi, off + sz)
+                        if off != 'opq':
+                            hi = max(hi, off + sz)
                 t = tm.top(deps, 'merge')
                 m.cells[0] = (hi, t)
             m.discr = {}
@@ -265,6 +269,8 @@ class Interp(object):
     @staticmethod
     def _overlaps(ag, off, size):
         for o, (s, _) in ag.cells.items():
+            if o == 'opq':
+                return True
             if o < off + size and off < o + s:
                 return True
         return False
@@ -274,6 +280,7 @@ class Interp(object):
         if size == 0:
             return
         cells = obj.cells
+        cells.pop('opq', None)
         hit = [o for o, (s, _) in cells.items() if o < off + size and off < o + s]
         for o in hit:
             s, t = cells.pop(o)
@@ -288,6 +295,18 @@ class Interp(object):
 
     def write(self, obj, off, size, val):
         if size == 0:
+            return
+        if size is None or off is None:
+            # value / place of a type whose layout is unknown (generic parameter): one opaque cell for the whole object
+            old = obj.cells.get('opq')
+            if off is None and old is not None:
+                vd = val.deps if isinstance(val, T) else val.deps()
+                val = tm.top(set(old[1].deps) | set(vd), 'opaque-field-write')
+            if isinstance(val, T):
+                obj.cells = {'opq': (0, val)}
+            else:
+                obj.cells = dict(val.cells)
+            obj.discr = {} if isinstance(val, T) else dict(val.discr)
             return
         self.clear_range(obj, off, size)
         if isinstance(val, T):
@@ -304,6 +323,16 @@ class Interp(object):
         scalar = tyid is None or self.is_scalar(tyid)
         if size == 0:
             return Agg(0)
+        oq = obj.cells.get('opq')
+        if size is None or off is None or oq is not None:
+            if oq is None:
+                if obj.cells or obj.discr:
+                    return tm.top(obj.deps(), 'opaque-read')
+                return UNINIT
+            if off is None or (size is not None and off not in (0, None)):
+                return mk('field_of', oq[1], -1 if off is None else off)
+            if size is None or off == 0:
+                return oq[1] if (size is None or scalar) else mk('field_of', oq[1], 0)
         c = obj.cells.get(off)
         if c is not None and c[0] == size and scalar:
             return c[1]
@@ -336,7 +365,7 @@ class Interp(object):
         return out
 
     def _gather(self, obj, off, size):
-        r = [(o, s, t) for o, (s, t) in obj.cells.items() if o < off + size and off < o + s]
+        r = [(o, s, t) for o, (s, t) in obj.cells.items() if o != 'opq' and o < off + size and off < o + s]
         r.sort(key=lambda x: x[0])
         return r
 
@@ -372,7 +401,7 @@ class Interp(object):
         t = self.F.types[tyid]
         if t['sz'] == 0:
             return Agg(0)
-        if self.is_scalar(tyid):
+        if self.is_scalar(tyid) or t['sz'] is None:
             return tm.top(deps, tag)
         out = Agg(t['sz'])
         try:
@@ -514,8 +543,9 @@ class Interp(object):
             k = e[0]
             if k == 'f':
                 if e[1] < 0:
-                    raise Abort('field offset unknown')
-                alts = [(c, o, off + e[1]) for (c, o, off) in alts]
+                    alts = [(c, o, None) for (c, o, off) in alts]
+                else:
+                    alts = [(c, o, (off + e[1]) if off is not None else None) for (c, o, off) in alts]
                 cur_ty = e[2]
             elif k == 'd':
                 new = []
@@ -523,6 +553,8 @@ class Interp(object):
                 fat = t.get('fat') is not None
                 ps = self.F.ptr_size
                 for (c, o, off) in alts:
+                    if off is None:
+                        raise Abort('deref through a field of unknown layout')
                     pv = self.read(o, off, ps, None)
                     if fat:
                         meta = self.read(o, off + ps, ps, None)
@@ -540,7 +572,7 @@ class Interp(object):
                 idx = self.read(self.heap[fr.locals[e[1]]], 0, self.F.ptr_size, None)
                 stride = e[2]
                 if tm.is_const(idx):
-                    alts = [(c, o, off + tm.cbits(idx) * stride) for (c, o, off) in alts]
+                    alts = [(c, o, (off + tm.cbits(idx) * stride) if off is not None else None) for (c, o, off) in alts]
                 else:
                     t = self.F.types[cur_ty]
                     n = t.get('count') if t.get('k') == 'array' else None
@@ -563,7 +595,7 @@ class Interp(object):
             elif k == 'ci':
                 if e[3]:
                     raise Abort('from_end constant index')
-                alts = [(c, o, off + e[1] * e[4]) for (c, o, off) in alts]
+                alts = [(c, o, (off + e[1] * e[4]) if off is not None else None) for (c, o, off) in alts]
                 cur_ty = self.F.types[cur_ty].get('elem')
             else:
                 raise Abort('projection %s' % k)
@@ -596,9 +628,10 @@ class Interp(object):
         alts, meta = self.eval_place(fr, p)
         tyid = p[2]
         size = self.F.types[tyid]['sz']
-        if size is None:
+        if size is None and self.F.types[tyid].get('k') in ('slice', 'str', 'dyn'):
             raise Abort('read of unsized place')
-        self._log_access(fr, p, alts, size, 'read')
+        if size is not None:
+            self._log_access(fr, p, alts, size, 'read')
         if len(alts) == 1:
             return self.read(alts[0][1], alts[0][2], size, tyid)
         # gated read
@@ -630,9 +663,10 @@ class Interp(object):
         alts, _ = self.eval_place(fr, p)
         tyid = p[2]
         size = self.F.types[tyid]['sz']
-        if size is None:
+        if size is None and self.F.types[tyid].get('k') in ('slice', 'str', 'dyn'):
             raise Abort('write of unsized place')
-        self._log_access(fr, p, alts, size, 'write')
+        if size is not None:
+            self._log_access(fr, p, alts, size, 'write')
         if len(alts) == 1:
             self.write(alts[0][1], alts[0][2], size, val)
             return
@@ -662,7 +696,7 @@ class Interp(object):
             alts, meta = self.eval_place(fr, rv[1])
             pt = None
             for (c, o, off) in reversed(alts):
-                p = tm.ptr(o.id, off)
+                p = tm.ptr(o.id, off if off is not None else 0)
                 pt = p if pt is None else ite(c, p, pt)
             if self.is_fat(dest_ty):
                 ps = self.F.ptr_size
@@ -711,6 +745,10 @@ class Interp(object):
         d = obj.discr.get((off, tyid))
         if d is not None:
             return d
+        oq = obj.cells.get('opq')
+        if oq is not None or off is None or self.F.types[tyid]['sz'] is None:
+            base = oq[1] if oq is not None else tm.top(obj.deps(), 'opaque-discr')
+            return mk('discr_of', base)
         t = self.F.types[tyid]
         vinfo = t.get('variants')
         if vinfo is None:
@@ -894,6 +932,18 @@ class Interp(object):
         kind, tid, variant, active, ops = rv[1], rv[2], rv[3], rv[4], rv[5]
         t = self.F.types[tid]
         vals = [self.operand(fr, o) for o in ops]
+        if t['sz'] is None and kind not in ('rawptr',):
+            # aggregate of a type with unknown layout (generic): keep the operands as an opaque constructor term
+            flat = []
+            for v in vals:
+                if isinstance(v, T):
+                    flat.append(v)
+                else:
+                    for o in sorted(k_ for k_ in v.cells if k_ != 'opq'):
+                        flat.append(v.cells[o][1])
+                    if 'opq' in v.cells:
+                        flat.append(v.cells['opq'][1])
+            return mk('agg', t['n'], variant, *flat)
         out = Agg(t['sz'])
         if kind == 'array':
             for j, v in enumerate(vals):
@@ -1324,6 +1374,12 @@ class Interp(object):
         for c in self.pathcond:
             deps |= c.deps
         self.opaque_calls.append((d, frozenset(deps), fr.body['d'], line))
+        if self.opts.get('log_opaque_effects'):
+            import tables as _tb
+            k = len(self.effects)
+            tok = tm.atom('eff#%d:%s' % (k, d.rsplit('::', 1)[-1]))
+            self.effects.append((d, tuple(_tb.describe_arg(self, fr, a, ty) for a, ty in zip(args, tys)), tuple(self.pathcond), fr.body['d'], tok))
+            deps = set(deps) | {tok}
         # havoc memory writable through the arguments (typed extents, `&mut` / `*mut` only)
         for a, ty in zip(args, tys):
             self.typed_havoc(a, ty, deps)
@@ -1562,7 +1618,7 @@ class Interp(object):
         rt = locs[0]
         rsz = self.F.types[rt]['sz']
         ret_obj = self.heap[fr.locals[0]]
-        res = self.read(ret_obj, 0, rsz, rt) if rsz else Agg(0)
+        res = self.read(ret_obj, 0, rsz, rt) if rsz != 0 else Agg(0)
         # free locals (pointers into them cannot legally escape)
         for o in fr.locals:
             self.heap.pop(o, None)
